@@ -40,6 +40,26 @@ def fragment_problems(fn, funcs=(), dead=frozenset()):
     params = {a.arg for a in fn.args.args + fn.args.kwonlyargs}
     subscripted = {n.value.id for n in ast.walk(fn) if isinstance(n, ast.Subscript) and isinstance(n.value, ast.Name)}
     tables = roots | {p for p in params if p in subscripted and p.startswith(("opt", "hopt"))}
+    for n in ast.walk(fn):
+        if isinstance(n, ast.Return) and n.value is not None:
+            tables |= {x.id for x in ast.walk(n.value) if isinstance(x, ast.Name)}
+    # what a written-through name was taken from is a table as well (`row = opt[k][1]; row[m] = ...`)
+    changed = True
+    while changed:
+        changed = False
+        for n in ast.walk(fn):
+            if isinstance(n, ast.Assign):
+                tg = {x.id for t in n.targets for x in ast.walk(t) if isinstance(x, ast.Name) and isinstance(x.ctx, ast.Store)}
+                vals = list(n.value.elts) if isinstance(n.value, ast.Tuple) else [n.value]
+                if tg & tables and all(isinstance(v, (ast.Name, ast.Subscript)) for v in vals):
+                    def base(v):
+                        while isinstance(v, ast.Subscript):
+                            v = v.value
+                        return v.id if isinstance(v, ast.Name) else None
+                    src = {base(v) for v in vals} - {None}
+                    if not src <= tables:
+                        tables |= src
+                        changed = True
 
     def mentions_table(e):
         return any(isinstance(x, ast.Name) and x.id in tables for x in ast.walk(e))
@@ -79,5 +99,7 @@ def table_taint(repo, liveness):
             continue
         pr = fragment_problems(fn, liveness.funcs, liveness.dead_nodes)
         if pr:
-            out[f"{rel[:-3].replace('/', '.')}.{fname}"] = pr[:4]
+            # the alias problem concerns the extraction of table entries (C07); rules that follow the builder with the
+            # interpreter (C17.BORDER) are not affected
+            out[f"{rel[:-3].replace('/', '.')}.{fname}"] = [(l, t, ("C07.",)) for l, t in pr[:4]]
     return out
